@@ -131,6 +131,11 @@ def check(run, repo):
         ('blanks everywhere', '  ' + A + '  +   3 ' + B + '   =  ' + TSn + ' = 1.5' + B + '  ',
          ([kA, kB], [1, 3], [kB], [Fr(3, 2)], [kT], [1])),
         ('integer written as decimal', '2.0' + A + '=' + B, ([kA], [2], [kB], [1], None, None)),
+        # the repeat goes to the species' own entry, not to whatever was collected last
+        ('repeated species with another in between', A + ' + 0.5' + B + ' + 2' + A + ' = ' + B,
+         ([kA, kB], [3, Fr(1, 2)], [kB], [1], None, None)),
+        ('two species repeated alternately', A + '+' + B + '+' + A + '+3' + B + '=' + TSn + '=' + B + '+' + A + '+' + B,
+         ([kA, kB], [2, 4], [kB, kA], [2, 1], [kT], [1])),
     ]
     for label, s_, want in cases:
         # through the public constructor: the parsed species are the objects of the dictionary
